@@ -30,7 +30,7 @@ pub fn compare(cfg: &TreeCfg, input: &str, o: &TreeOut) -> Option<(String, Strin
 
 /// verdict plus the digest of the reference's state before end-of-file (second half of the product key)
 pub fn compare_keyed(cfg: &TreeCfg, input: &str, o: &TreeOut) -> (Option<(String, String)>, u128) {
-    let (r, key) = match guarded(|| rtree::parse_keyed(&rcfg(cfg), input)) {
+    let (r, key, ref_summary) = match guarded(|| rtree::parse_keyed(&rcfg(cfg), input)) {
         Ok(r) => r,
         Err(p) => machinery(&format!("R-tree panicked on {input:?} ({}): {p}", cfg.describe())),
     };
@@ -49,6 +49,12 @@ pub fn compare_keyed(cfg: &TreeCfg, input: &str, o: &TreeOut) -> (Option<(String
     let got_q = if sink_quirks_was_set(sink) { q } else { cfg.quirks };
     if got_q != r.quirks {
         return (Some(("quirks-mode".into(), format!("html5ever reports {got_q}, spec says {}", r.quirks))), key);
+    }
+    // control state before end-of-file: insertion mode, template modes, names on the stack of open
+    // elements and in the list of active formatting elements, frameset-ok, head / form pointers,
+    // pending table text. A divergence here shows one or two tokens before it shows in the tree.
+    if !ref_summary.is_empty() && !o.ctl_summary.is_empty() && ref_summary != o.ctl_summary {
+        return (Some(("control-state".into(), format!("html5ever: {}\nWHATWG (R-tree): {ref_summary}", o.ctl_summary))), key);
     }
     (None, key)
 }
